@@ -65,6 +65,7 @@ Proof. exact inventories_nonempty. Qed.
 Print Assumptions C27_inventories_nonempty.
 
 (* Non-vacuity on a hand-written inventory: both outcomes. *)
-Definition ex_map := mkCallmap [("WithA", "a"); ("WithB", "b")] [("a", "A")] [("A", "a")].
+Definition ex_map := mkCallmap [("WithA", "a"); ("WithB", "b"); ("WithC", "c")] [("a", "A"); ("c", "C")] [("A", "a"); ("C", "c")]
+  [("A", "nonnil"); ("C", "value:cmd.C > 0")].
 Example C27_ex_carried : carried_b ex_map "a" = true. Proof. reflexivity. Qed.
-Example C27_ex_lost : lost ex_map = ["b"]. Proof. reflexivity. Qed.
+Example C27_ex_lost : lost ex_map = ["b"; "c"]. Proof. reflexivity. Qed.   (* b: not transmitted; c: value-guarded by the receiver *)
